@@ -153,7 +153,14 @@ def gen_builtin_case(rng):
     vj = nkeys
     f = lambda j: ['float_of', ['field', 'a', j, 'var']]
     other = nkeys + (1 if nvals > 1 else 0)
-    items = [{'kind': 'expr', 'expr': rng.choice([['pymax', f(vj), f(other)], ['pymin', f(vj), ['int', 3]], ['pysum', [f(vj), f(other), ['int', 1]]], ['pymaxl', [f(vj), ['NR']]]])} for _ in range(rng.choice([1, 2]))]
+    def one():
+        if rng.random() < 0.5:
+            return rng.choice([['pymax', f(vj), f(other)], ['pymin', f(vj), ['int', 3]], ['pysum', [f(vj), f(other), ['int', 1]]], ['pymaxl', [f(vj), ['NR']]]])
+        # a single iterable argument that is not a list
+        form = rng.choice(['gen', 'map', 'tuple', 'iter', 'set', 'reversed', 'dictkeys', 'filter', 'zip'])
+        xs = [f(vj), f(other), ['NR']][:rng.choice([1, 2, 3])] if form != 'filter' else [f(vj), ['NR'], ['int', 5]]
+        return ['pybuiltin', rng.choice(['max', 'min', 'sum']), form, xs]
+    items = [{'kind': 'expr', 'expr': one()} for _ in range(rng.choice([1, 2]))]
     items.append({'kind': 'expr', 'expr': ['field', 'a', 0, 'var']})
     q = {'kind': 'select', 'items': items, 'distinct': None, 'top': None, 'top_kw': 'top', 'where': None, 'join': None, 'order': None, 'group': None, 'except': None, 'assign': [], 'with': None}
     return common.case_json(q, {'A': A, 'B': None, 'a_names': None, 'b_names': None})
